@@ -5,6 +5,7 @@
   timer actually firing within BatchDelaySeconds.
 -/
 import SV.Persist.Proofs
+import SV.Persist.CrashProofs
 import SV.FactsProofs
 namespace SV.Props.C10
 open SV SV.Persist
@@ -57,5 +58,42 @@ theorem flushed_state_is_the_map (p : P) (h : BInv p) : ∀ k, alookup k p.flush
 theorem at_risk_bounded (p : P) (h : BInv p) : p.ops.length < p.maxBatch := pending_bounded p h
 theorem invariant_put (p : P) (k : Bytes) (v : Val) (h : BInv p) : BInv (p.put k v) := BInv.put p k v h
 theorem invariant_remove (p : P) (k : Bytes) (h : BInv p) : BInv (p.remove k) := BInv.remove p k h
+
+/-! ### whole histories, every crash point (SV.Persist.Crash: `crashImage maxBatch ops i survived` is the directory left by
+    a process that dies while operation `i` is in progress — if that operation issued a LevelDB write, the write either
+    survived whole or not at all (the engine contract, an explicit hypothesis built into the definition) -/
+
+/-- for EVERY history, batch size and crash point the recovered directory is the state as of a flush boundary `j ≤ i+1`
+    which is at least every boundary completed before the crash (all completed flushes are fully present), and it is —
+    key by key — EXACTLY the plain-map state after the first `j` operations: nothing of a later batch (never partial),
+    everything of the earlier ones, applied in order -/
+theorem crash_recovers_a_flush_boundary (maxBatch : Nat) (hm : 1 ≤ maxBatch) (ops : List Op) (i : Nat) (survived : Bool) :
+    ∃ j, j ≤ i + 1 ∧ Boundary maxBatch ops j ∧
+      (∀ j', j' ≤ i → Boundary maxBatch ops j' → j' ≤ j) ∧
+      crashImage maxBatch ops i survived = (run maxBatch (ops.take j)).db ∧
+      ∀ k, alookup k (crashImage maxBatch ops i survived) = (ops.take j).foldl specStep (fun _ => none) k :=
+  crash_recovers_a_recent_flush_boundary maxBatch hm ops i survived
+
+/-- an acknowledged write is at risk for at most MaxBatchSize − 1 further Put/Remove operations: if that many follow
+    operation `j`, a flush boundary lies in `(j, i]`; and every timer event / Close is a boundary -/
+theorem acknowledged_write_flushed_within (maxBatch : Nat) (hm : 1 ≤ maxBatch) (ops : List Op) (i j : Nat) (hji : j < i)
+    (hi : i ≤ ops.length) (hcnt : maxBatch ≤ ((ops.take i).drop (j + 1)).countP Op.isUpdate + 1) :
+    ∃ j', j < j' ∧ j' ≤ i ∧ Boundary maxBatch ops j' := write_flushed_within maxBatch hm ops i j hji hi hcnt
+theorem timer_and_close_are_boundaries (maxBatch : Nat) (ops : List Op) (i : Nat)
+    (h : ops[i]? = some Op.tick ∨ ops[i]? = some Op.reopen) : Boundary maxBatch ops (i + 1) :=
+  boundary_after_tick_reopen maxBatch ops i h
+/-- fewer than MaxBatchSize acknowledged updates are lost by any crash -/
+theorem lost_updates_are_bounded (maxBatch : Nat) (hm : 1 ≤ maxBatch) (ops : List Op) (i : Nat) (survived : Bool) :
+    ((ops.take i).drop (crashPoint maxBatch ops i survived)).countP Op.isUpdate < maxBatch :=
+  lost_updates_bounded maxBatch hm ops i survived
+
+/-- the judgement the model driver applies to every REAL crash image (`imageAllowed`, computable) is sound and complete
+    for that characterisation -/
+theorem driver_judgement_sound (maxBatch : Nat) (hm : 1 ≤ maxBatch) (ops : List Op) (i : Nat) (img : Store)
+    (h : imageAllowed maxBatch ops i img = true) :
+    ∃ j, j ≤ i + 1 ∧ Boundary maxBatch ops j ∧ (∀ j', j' ≤ i → Boundary maxBatch ops j' → j' ≤ j) ∧
+      ∀ k, alookup k img = (ops.take j).foldl specStep (fun _ => none) k := imageAllowed_sound maxBatch hm ops i img h
+theorem driver_judgement_complete (maxBatch : Nat) (ops : List Op) (i : Nat) (survived : Bool) :
+    imageAllowed maxBatch ops i (crashImage maxBatch ops i survived) = true := imageAllowed_crashImage maxBatch ops i survived
 
 end SV.Props.C10
